@@ -48,6 +48,7 @@ class Ob:
     trace_vars: List[str] = field(default_factory=list)  # extra (ghost) variables whose last traced value feeds the replay
     stream_replay: str = ''       # name of a stream-level replay generator in lib/streamgen.py (runs the real lbzip2 binary)
     twin: str = ''                  # name of an explicit bounded obligation used to find a concrete input when this one fails
+    slow_for: List[str] = field(default_factory=list)   # properties for which this obligation runs in the thorough tier only (it stays quick for the others)
     gi_flags: List[str] = field(default_factory=list)   # extra goto-instrument pass (e.g. --restrict-function-pointer) before cbmc, non-dfcc harnesses
 
     @property
